@@ -346,6 +346,20 @@ class _StatementForms(ast.NodeTransformer):
                     first = ast.Assign(targets=[ast.Name(tgt.id, ast.Store())], value=ast.Dict(keys=[], values=[])) if isinstance(st, ast.Assign) else \
                         ast.AnnAssign(target=ast.Name(tgt.id, ast.Store()), annotation=st.annotation, value=ast.Dict(keys=[], values=[]), simple=1)
                     new = [first] + [ast.Assign(targets=[ast.Subscript(value=ast.Name(tgt.id, ast.Load()), slice=k, ctx=ast.Store())], value=v) for k, v in zip(st.value.keys, st.value.values)]
+            if new is None and isinstance(st, ast.Expr) and isinstance(st.value, ast.Call) and sum(isinstance(a, ast.IfExp) for a in st.value.args) == 1 and not st.value.keywords \
+                    and isinstance(st.value.func, ast.Attribute) and _simple_expr(st.value.func.value) and all(isinstance(a, ast.IfExp) or _simple_expr(a) for a in st.value.args):
+                # `h.write(A if c else B)`  ->  `if c: h.write(A) else: h.write(B)` (receiver and other arguments are side-effect free)
+                import copy as _copy
+                i_ = next(i for i, a in enumerate(st.value.args) if isinstance(a, ast.IfExp))
+                ife = st.value.args[i_]
+                c1, c2 = _copy.deepcopy(st.value), _copy.deepcopy(st.value)
+                c1.args[i_], c2.args[i_] = ife.body, ife.orelse
+                new = [ast.If(test=ife.test, body=[ast.Expr(c1)], orelse=[ast.Expr(c2)])]
+            if new is None and isinstance(st, ast.Expr) and isinstance(st.value, ast.Call) and isinstance(st.value.func, ast.Attribute) and st.value.func.attr == 'extend' \
+                    and isinstance(st.value.func.value, ast.Subscript) and len(st.value.args) == 1 and isinstance(st.value.args[0], ast.Name) and not st.value.keywords:
+                # `acc[k].extend(v)`  ->  `acc[k] += v`  (in-place list extension either way)
+                tgt_ = st.value.func.value
+                new = [ast.AugAssign(target=ast.Subscript(value=tgt_.value, slice=tgt_.slice, ctx=ast.Store()), op=ast.Add(), value=st.value.args[0])]
             if new is None and isinstance(st, ast.Assign) and len(st.targets) > 1 and all(isinstance(t, ast.Name) for t in st.targets) and isinstance(st.value, ast.Constant):
                 new = [ast.Assign(targets=[t], value=ast.Constant(st.value.value)) for t in st.targets]
             if new is None and isinstance(st, ast.With) and len(st.items) == 1 and st.items[0].optional_vars is None and isinstance(st.items[0].context_expr, ast.Call) \
@@ -373,6 +387,139 @@ class _StatementForms(ast.NodeTransformer):
             for h in node.handlers:
                 h.body = self._block(h.body)
         return node
+
+
+class _LoopForms(ast.NodeTransformer):
+    """Normal forms of loops (behaviour-preserving):
+      * `for x in iter(partial(h.read, n), S): B` / `for x in iter(lambda: h.read(n), S): B`  ->  `while True: x = h.read(n); if x == S: break; B`
+      * `for v in itertools.count(a[, k]): B` (B without `continue`)  ->  `v = a; while True: B; v += k`"""
+
+    def visit_For(self, node):
+        self.generic_visit(node)
+        it = node.iter
+        if node.orelse or not isinstance(node.target, ast.Name) or not isinstance(it, ast.Call):
+            return node
+        f = dotted(it.func) or ''
+        if f == 'iter' and len(it.args) == 2 and not it.keywords:
+            src, sentinel = it.args
+            call = None
+            if isinstance(src, ast.Lambda) and not src.args.args and isinstance(src.body, ast.Call):
+                call = src.body
+            elif isinstance(src, ast.Call) and (dotted(src.func) or '').split('.')[-1] == 'partial' and src.args:
+                call = ast.Call(func=src.args[0], args=list(src.args[1:]), keywords=list(src.keywords))
+            if call is not None:
+                x = node.target.id
+                asg = ast.Assign(targets=[ast.Name(x, ast.Store())], value=call)
+                brk = ast.If(test=ast.Compare(left=ast.Name(x, ast.Load()), ops=[ast.Eq()], comparators=[sentinel]), body=[ast.Break()], orelse=[])
+                new = ast.While(test=ast.Constant(True), body=[asg, brk] + node.body, orelse=[])
+                ast.copy_location(new, node)
+                for n_ in (asg, brk):
+                    ast.copy_location(n_, node)
+                ast.fix_missing_locations(new)
+                return new
+        if f in ('itertools.count', 'count') and len(it.args) <= 2 and not it.keywords:
+            # a `continue` of this loop would skip the increment that the rewrite puts at the end of the body
+            def own_continue(stmts):
+                for st in stmts:
+                    if isinstance(st, ast.Continue):
+                        return True
+                    if isinstance(st, (ast.For, ast.While, ast.FunctionDef, ast.AsyncFunctionDef, ast.ClassDef)):
+                        continue
+                    for field in ('body', 'orelse', 'finalbody'):
+                        if own_continue(getattr(st, field, []) or []):
+                            return True
+                    for h in getattr(st, 'handlers', []) or []:
+                        if own_continue(h.body):
+                            return True
+                return False
+            if not own_continue(node.body):
+                v = node.target.id
+                start = it.args[0] if it.args else ast.Constant(0)
+                step = it.args[1] if len(it.args) == 2 else ast.Constant(1)
+                init = ast.Assign(targets=[ast.Name(v, ast.Store())], value=start)
+                inc = ast.AugAssign(target=ast.Name(v, ast.Store()), op=ast.Add(), value=step)
+                loop = ast.While(test=ast.Constant(True), body=node.body + [inc], orelse=[])
+                for n_ in (init, loop):
+                    ast.copy_location(n_, node)
+                ast.copy_location(inc, node.body[-1])
+                ast.fix_missing_locations(init)
+                ast.fix_missing_locations(loop)
+                return [init, loop]
+        return node
+
+
+def _inline_new_constants(trees, known):
+    """Normal form (behaviour-preserving): a module- or class-level name that is new with respect to the pinned tree (not in dosa/known_constants.json), is bound exactly
+    once to a literal (str / bytes / int / bool / tuple of those) and never rebound, is read as that literal: pulling a magic value up into a named constant changes nothing."""
+    import copy
+    cands = {}
+
+    def scan(body, owner):
+        for st in body:
+            if isinstance(st, ast.ClassDef):
+                scan(st.body, st.name)
+            elif isinstance(st, (ast.Assign, ast.AnnAssign)) and st.value is not None:
+                tgts = st.targets if isinstance(st, ast.Assign) else [st.target]
+                if len(tgts) == 1 and isinstance(tgts[0], ast.Name) and tgts[0].id not in known and tgts[0].id.strip('_').isupper():
+                    v = st.value
+                    simple = isinstance(v, ast.Constant) and isinstance(v.value, (str, bytes, int, bool)) or \
+                        (isinstance(v, (ast.Tuple, ast.List)) and all(isinstance(e, ast.Constant) for e in v.elts)) or \
+                        (isinstance(v, ast.BinOp) and all(isinstance(x, (ast.Constant, ast.BinOp, ast.Mult, ast.Add, ast.Sub, ast.Pow, ast.LShift)) for x in ast.walk(v) if not isinstance(x, (ast.Load,))))
+                    if simple:
+                        cands[tgts[0].id] = None if tgts[0].id in cands else (v, owner)
+    for t in trees:
+        scan(t.body, None)
+    cands = {k: v for k, v in cands.items() if v is not None}
+    # never rebound / mutated anywhere
+    for t in trees:
+        for n in ast.walk(t):
+            if isinstance(n, ast.Name) and n.id in cands and isinstance(n.ctx, (ast.Store, ast.Del)):
+                par_ok = False
+                # the defining assignment itself is a Store too: count stores, keep only names stored once
+                cands[n.id] = (cands[n.id][0], cands[n.id][1], cands[n.id][2] + 1) if len(cands[n.id]) == 3 else (cands[n.id][0], cands[n.id][1], 1)
+            elif isinstance(n, ast.Attribute) and n.attr in cands and isinstance(n.ctx, (ast.Store, ast.Del)):
+                cands[n.attr] = (cands[n.attr][0], cands[n.attr][1], 99)
+    cands = {k: v for k, v in cands.items() if len(v) == 3 and v[2] == 1}
+    if not cands:
+        return
+
+    class Sub(ast.NodeTransformer):
+        def visit_Name(self, node):
+            if node.id in cands and isinstance(node.ctx, ast.Load) and cands[node.id][1] is None:
+                return ast.copy_location(copy.deepcopy(cands[node.id][0]), node)
+            return node
+
+        def visit_Attribute(self, node):
+            self.generic_visit(node)
+            if node.attr in cands and isinstance(node.ctx, ast.Load) and cands[node.attr][1] is not None and isinstance(node.value, ast.Name) \
+                    and node.value.id in ('self', 'cls', cands[node.attr][1]):
+                return ast.copy_location(copy.deepcopy(cands[node.attr][0]), node)
+            return node
+
+        def visit_ClassDef(self, node):
+            # inside the owning class body the constant is also visible as a bare name (other class-level assignments)
+            self.generic_visit(node)
+            return node
+    class FoldF(ast.NodeTransformer):
+        # f'{x}{".lock"}' -> f'{x}.lock' after a constant was substituted into a formatted value
+        def visit_JoinedStr(self, node):
+            self.generic_visit(node)
+            vals = []
+            for v in node.values:
+                if isinstance(v, ast.FormattedValue) and v.conversion == -1 and v.format_spec is None and isinstance(v.value, ast.Constant) and isinstance(v.value.value, str):
+                    v = ast.Constant(v.value.value)
+                if isinstance(v, ast.Constant) and vals and isinstance(vals[-1], ast.Constant):
+                    vals[-1] = ast.Constant(vals[-1].value + v.value)
+                else:
+                    vals.append(v)
+            node.values = vals
+            if len(vals) == 1 and isinstance(vals[0], ast.Constant):
+                return ast.copy_location(vals[0], node)
+            return node
+    for t in trees:
+        Sub().visit(t)
+        FoldF().visit(t)
+        ast.fix_missing_locations(t)
 
 
 class _DropLocalAnnotations(ast.NodeTransformer):
@@ -615,6 +762,46 @@ class _Rename(ast.NodeTransformer):
         return node
 
 
+def _prune_constant_ifs(stmts):
+    """`if True: A else: B` -> A ; `if False: A else: B` -> B (after a constant argument was substituted for a parameter)."""
+    out = []
+    for st in stmts:
+        for field in ('body', 'orelse', 'finalbody'):
+            v = getattr(st, field, None)
+            if isinstance(v, list) and v and isinstance(v[0], ast.stmt):
+                setattr(st, field, _prune_constant_ifs(v) or ([ast.Pass()] if field == 'body' else []))
+        if isinstance(st, ast.Try):
+            for h in st.handlers:
+                h.body = _prune_constant_ifs(h.body) or [ast.Pass()]
+        if isinstance(st, ast.If) and isinstance(st.test, ast.Constant):
+            out.extend(st.body if st.test.value else st.orelse)
+        elif isinstance(st, ast.If) and isinstance(st.test, ast.UnaryOp) and isinstance(st.test.op, ast.Not) and isinstance(st.test.operand, ast.Constant):
+            out.extend(st.orelse if st.test.operand.value else st.body)
+        else:
+            out.append(st)
+    return out
+
+
+def _merge_self_reassignments(stmts):
+    """`x = A` immediately followed by `x = x.m(...)` (x used once, as the receiver)  ->  `x = A.m(...)`: a statement built in two steps reads like the one-step spelling."""
+    out = []
+    for st in stmts:
+        prev = out[-1] if out else None
+        if isinstance(st, ast.Assign) and len(st.targets) == 1 and isinstance(st.targets[0], ast.Name) and isinstance(prev, ast.Assign) and len(prev.targets) == 1 \
+                and isinstance(prev.targets[0], ast.Name) and prev.targets[0].id == st.targets[0].id and isinstance(st.value, ast.Call) and isinstance(st.value.func, ast.Attribute) \
+                and isinstance(st.value.func.value, ast.Name) and st.value.func.value.id == st.targets[0].id \
+                and sum(isinstance(x, ast.Name) and x.id == st.targets[0].id for x in ast.walk(st.value)) == 1:
+            st.value.func.value = prev.value
+            out[-1] = st
+            continue
+        for field in ('body', 'orelse', 'finalbody'):
+            v = getattr(st, field, None)
+            if isinstance(v, list) and v and isinstance(v[0], ast.stmt):
+                setattr(st, field, _merge_self_reassignments(v))
+        out.append(st)
+    return out
+
+
 def _inline_new_helpers(trees, known):
     """Normal form (behaviour-preserving reading): a *private* function that is new with respect to the pinned tree (its name is not in dosa/known_functions.json),
     has a single exit (no `return` except as its last statement), is neither a generator nor recursive nor decorated (staticmethod / classmethod apart), is read
@@ -635,7 +822,10 @@ def _inline_new_helpers(trees, known):
                 if a.vararg or a.kwarg or a.kwonlyargs and any(d is None for d in a.kw_defaults):
                     continue
                 inner = [n for n in ast.walk(st) if n is not st]
-                if any(isinstance(n, (ast.Yield, ast.YieldFrom, ast.Await, ast.FunctionDef, ast.AsyncFunctionDef, ast.ClassDef, ast.Global, ast.Nonlocal)) for n in inner):
+                if any(isinstance(n, (ast.Await, ast.FunctionDef, ast.AsyncFunctionDef, ast.ClassDef, ast.Global, ast.Nonlocal)) for n in inner):
+                    continue
+                is_gen = any(isinstance(n, (ast.Yield, ast.YieldFrom)) for n in inner)
+                if is_gen and any(isinstance(n, ast.Return) and n.value is not None for n in inner):
                     continue
                 body_ = [x for x in st.body if not (isinstance(x, ast.Expr) and isinstance(x.value, ast.Constant) and isinstance(x.value.value, str))]
                 rets = [n for n in inner if isinstance(n, ast.Return)]
@@ -647,7 +837,7 @@ def _inline_new_helpers(trees, known):
                 if st.name in helpers:
                     helpers[st.name] = None   # ambiguous name
                 else:
-                    helpers[st.name] = (st, owner, body_, 'staticmethod' in decos, single)
+                    helpers[st.name] = (st, owner, body_, 'staticmethod' in decos, single, is_gen)
     for t in trees:
         collect(t.body, None)
     helpers = {k: v for k, v in helpers.items() if v is not None}
@@ -665,7 +855,11 @@ def _inline_new_helpers(trees, known):
 
     def expand(call, hname, caller_names, sink):
         """sink: 'expr' | ('assign', stmt) | 'return'; returns the replacement statements or None."""
-        fn, owner, body_, static, single = helpers[hname]
+        fn, owner, body_, static, single, is_gen = helpers[hname]
+        if is_gen != (sink == 'yieldfrom'):
+            return None
+        if sink == 'yieldfrom':
+            sink = 'expr'
         a = fn.args
         params = [x.arg for x in a.posonlyargs + a.args]
         if owner is not None and not static and params:
@@ -699,6 +893,8 @@ def _inline_new_helpers(trees, known):
             if loc in caller_names:
                 pass   # an extracted block re-uses the caller's names for the caller's variables: keep them
         body2 = [_Rename(mapping, subst).visit(copy.deepcopy(st)) for st in body_]
+        body2 = _prune_constant_ifs(body2)
+        body2 = _merge_self_reassignments(body2)
         if sink == 'return':
             # the helper's own returns are the caller's returns
             out = pre + body2
@@ -795,7 +991,11 @@ def _inline_new_helpers(trees, known):
             for i_, st in enumerate(stmts):
                 nxt_ = stmts[i_ + 1] if i_ + 1 < len(stmts) else None
                 rep = None
-                if isinstance(st, ast.Expr):
+                if isinstance(st, ast.Expr) and isinstance(st.value, ast.YieldFrom):
+                    h = call_of(st.value.value)
+                    if h:
+                        rep = expand(st.value.value, h, names, 'yieldfrom')
+                elif isinstance(st, ast.Expr):
                     h = call_of(st.value)
                     if h:
                         rep = expand(st.value, h, names, 'expr')
@@ -905,6 +1105,8 @@ def _namedtuple_arities(trees):
                     out[st.targets[0].id] = len(f.elts)
                 elif isinstance(f, ast.Constant) and isinstance(f.value, str):
                     out[st.targets[0].id] = len(f.value.replace(',', ' ').split())
+            elif isinstance(st, ast.ClassDef) and any((dotted(b) or '').split('.')[-1] == 'NamedTuple' for b in st.bases):
+                out[st.name] = len([x for x in st.body if isinstance(x, ast.AnnAssign) and isinstance(x.target, ast.Name)])
     return out
 
 
@@ -962,12 +1164,18 @@ class Program:
             known = None
         if known is not None:
             _inline_new_helpers([t for _, _, _, t in parsed], known)
+        try:
+            with open(os.path.join(os.path.dirname(os.path.abspath(__file__)), 'known_constants.json')) as fh:
+                _inline_new_constants([t for _, _, _, t in parsed], set(_json.load(fh)))
+        except FileNotFoundError:
+            pass
         sigs = _signatures([t for _, _, _, t in parsed])
         arity = _namedtuple_arities([t for _, _, _, t in parsed])
         for fname, path, src, tree in parsed:
             tree = _StarSliceArgs(arity).visit(tree)
             tree = _CallConvention(sigs, conv).visit(tree)
             tree = _DropLocalAnnotations().visit(tree)
+            tree = _LoopForms().visit(tree)
             ast.fix_missing_locations(tree)
             tree = _DeWalrus().visit(tree)
             tree = _StatementForms().visit(tree)
